@@ -16,7 +16,12 @@ class Prop:
     def __init__(self, rule, classify, mode="exact", modes=None, gen=True, regenerate=None,
                  exhaustive=None, trusted=None, assumptions=None, rtol=1e-9, atol_rel=1e-12,
                  finding_key=None, oracle=None, oracle_finish=None, def_ops=None, allow_badop=False,
-                 compare_op=None):
+                 compare_op=None, semantic_names=False, correspondence_only=None):
+        # predicate (toks, impl, model) -> True for a mismatch on an observable the property leaves open
+        self.correspondence_only = correspondence_only
+        # True where the property does not determine a result's variable LIST (solver, splines, curve look-ups,
+        # FX rates): a variable carried with zero derivatives and a missing variable are then the same answer
+        self.semantic_names = semantic_names
         self.compare_op = compare_op
         self.allow_badop = allow_badop
         self.rule = rule
@@ -263,7 +268,7 @@ def _cls_c18(t, impl):
     op = t[0]
     if op in ("numop", "numopf", "fnumop"):
         return "%s:%s:%s" % (op, t[1], _kind_of(impl)), True
-    if op in ("cmp", "cmpf", "fcmp"):
+    if op in ("cmp", "cmpf", "fcmp", "ncmp", "ncmpf", "fncmp"):
         return "%s:%s=%s" % (op, t[1], impl), True
     if op == "setord":
         return "setord:%s:%s" % (t[2], _kind_of(impl)), True
@@ -274,7 +279,7 @@ def _cls_c18(t, impl):
 
 def _cls_c19(t, impl):
     op = t[0]
-    if op in ("cmp", "cmpf", "fcmp"):
+    if op in ("cmp", "cmpf", "fcmp", "ncmp", "ncmpf", "fncmp"):
         return "%s:%s=%s" % (op, t[1], impl), True
     if op in ("un", "bin", "binf", "fbin"):
         return "%s:%s:%s" % (op, t[1], _kind_of(impl)), True
@@ -478,7 +483,7 @@ _curve_trusted = [
     "indexmap ordering / sort_keys modelled as a stable insertion sort on distinct keys",
 ]
 
-PROPS["C11"] = Prop(
+PROPS["C11"] = Prop(semantic_names=True, 
     rule="index_left EXHAUSTIVELY on all strictly increasing lists of length 2..6 (quick) / 2..9 (thorough) over a 9 / 12 "
          "point grid with all grid and half-grid query points; 500 (quick) random curves per run over the 5 rules, 2-40 "
          "nodes, spacing 1 day..30 years, random supply order, queried at every node date and both neighbours, before, "
@@ -486,7 +491,7 @@ PROPS["C11"] = Prop(
     classify=_cls_curve, mode="close", exhaustive=lambda tier: False, trusted=_curve_trusted + _dual_trusted[:1],
     assumptions=_dual_assume)
 
-PROPS["C12"] = Prop(
+PROPS["C12"] = Prop(semantic_names=True, 
     rule="random curves (5 rules x AD order 0/1/2 x with/without index base, some nodes supplied as dual numbers with "
          "their own variables) x random order-switch sequences of length 0..8; after every switch: order, node read-back "
          "(values, tags, sensitivities), look-ups and index values with gradients and Hessians by name",
@@ -572,7 +577,7 @@ _fx_trusted = [
     "LLVM folds powf(x, -1.0) into 1.0/x in the Rust build while the driver calls libm pow: compared close-float",
 ]
 
-PROPS["C09"] = Prop(
+PROPS["C09"] = Prop(semantic_names=True, 
     rule="random labelled trees by Prüfer sequences on n = 2..12 currencies, random orientation and quote order, random "
          "base (or none), rates log-uniform 1e-2..1e2, with/without settlement; the same quotes re-ordered with another "
          "base; malformed stream (missing / inverted duplicate / duplicate / cycle / mixed settlement). compared: ok/err, "
@@ -580,7 +585,7 @@ PROPS["C09"] = Prop(
     classify=_cls_fx, mode="close", modes={"fxrateq": "exact"}, exhaustive=lambda tier: False, trusted=_fx_trusted,
     assumptions=_dual_assume, oracle=_oracle_fx, allow_badop=True)
 
-PROPS["C10"] = Prop(
+PROPS["C10"] = Prop(semantic_names=True, 
     rule="markets as C09 (n = 2..8, some quotes given as dual numbers with own variables) + histories of 0..12 ops (quote "
          "updates of subsets, updates naming unknown/inverted pairs, order switches 0/1/2); after every op: order, full "
          "matrix with gradients and Hessians by name, and a market built directly from the latest quotes; model-free "
@@ -598,7 +603,7 @@ def _cls_c13(t, impl):
     return "solve:%s:%sx%s:lsq=%s:%s" % (t[1], t[2], t[3], t[4], impl.split(" ", 1)[0]), impl.startswith("X ")
 
 
-PROPS["C13"] = Prop(
+PROPS["C13"] = Prop(semantic_names=True, 
     rule="random well-conditioned systems of size 1..8 (tall up to 12 rows for least squares), entries float / Dual / "
          "Dual2 in the pairings the API allows (dsolve: same kind for A and b; fdsolve: float A with Dual/Dual2 b), zero "
          "patterns forcing row swaps in first/middle/last columns, ties in |pivot| (last maximum), random tagging; each "
@@ -671,14 +676,14 @@ _spl_trusted = [
     "correspondence run; csolve uses the fdsolve model of C13",
 ]
 
-PROPS["C14"] = Prop(
+PROPS["C14"] = Prop(semantic_names=True, 
     rule="orders 1..6, knot vectors with k-fold end knots and 0..5 interior positions of multiplicity 1..min(k-1,3) on a "
          "dyadic grid; every basis index, m = 0..k, evaluated at every knot, both end points, span midpoints, random points "
          "and outside points; plus whole basis rows for the model-free oracle (non-negative, local support, sum = 1)",
     classify=_cls_spl, mode="close", exhaustive=lambda tier: False, trusted=_spl_trusted, oracle=_oracle_c14,
     assumptions=["f64 rounding modelled (theorems over ordered fields)"])
 
-PROPS["C15"] = Prop(
+PROPS["C15"] = Prop(semantic_names=True, 
     rule="orders 2..6, simple interior knots, sites = Greville abscissae (plain interpolation) or knots with 2nd-derivative "
          "end conditions (natural cubic), data polynomial of degree < k or random, float / Dual / Dual2 data each tagged with "
          "its own variable; coefficients, values and derivatives m = 0..3 at sites, knots, end points and a grid; dual and "
@@ -718,6 +723,7 @@ PROPS["C16"] = Prop(
          "`rt`: model-free round trips on the real code - to_json/from_json, the tagged from_json entry point, bincode - "
          "with == and a query battery; `f64json`: the JSON text layer on a bare double",
     classify=_cls_c16, mode="exact", finding_key=_key_c16, exhaustive=lambda tier: False,
+    correspondence_only=lambda t, il, ml: bool(t) and t[0] == "ser" and il.startswith("B ") and ml.startswith("B "),
     trusted=["Lean model of the bincode 1.3 wire format and of serde's derive layout for Dual, Dual2, Number, PPSpline, "
              "NamedCal, FXRates, Curve (lean/RateslibModel/Model/Serde.lean), tied to the code by byte-exact comparison",
              "serde, serde_json, ryu, bincode, chrono's and ndarray's serde impls: implementation trusted; validated by "
@@ -837,6 +843,8 @@ PROPS["C20"] = Prop(
          "field, object<->array, replace or perturb values, drop / repeat / swap elements), plus non-JSON texts. "
          "Every call runs under catch_unwind; JSON loading runs in a worker process so that an abort is an outcome",
     classify=_cls_c20, mode="exact", finding_key=_key_c20, oracle=_oracle_c20, compare_op=_cmp_c20,
+    correspondence_only=lambda t, il, ml: bool(t) and t[0] in ("loadjson", "loadjsonx")
+    and il not in ("panic", "abort", "bad-op") and (il == "err" or ml == "err"),
     exhaustive=lambda tier: False,
     def_ops=DEF_OPS,
     trusted=["Lean model of serde's derived visitors, ndarray's visitor and the validating data models "
